@@ -6,6 +6,7 @@ import (
 	"encoding/json"
 	"fmt"
 	"os"
+	"regexp"
 	"strings"
 
 	"github.com/ozanh/ugo"
@@ -144,6 +145,8 @@ func c02arityMatrix() []*Program {
 	return ps
 }
 
+var catchReadMask = regexp.MustCompile(`i:-\d+ (true|false)`)
+
 type c02wit struct {
 	Program *Program `json:"program"`
 	Opt     int      `json:"optimizer_limit"`
@@ -194,6 +197,14 @@ func checkAgainstRef(c *core.Ctx, prop string, p *Program, args []ugo.Object, st
 			cls := why
 			if i := strings.Index(cls, ":"); i > 0 {
 				cls = cls[:i]
+			}
+			if r.In.Flags["catch-var-read-after-jump-out-of-try"] > 0 && why == "event log differs" &&
+				catchReadMask.ReplaceAllString(vm.Log, "i:-N ?") == catchReadMask.ReplaceAllString(r.Log, "i:-N ?") {
+				// known finding: only the logged value of a catch identifier read in finally after the
+				// try body was left by return/break/continue differs (stale local slot)
+				c.Violation(prop+"|known-shape|catch-var-stale-after-jump-out-of-try", "catch identifier read in finally holds a stale value after the try body was left by return/break/continue",
+					c02wit{Program: p, Opt: opt, Why: why, VM: vm, Ref: r.Outcome})
+				return true, r
 			}
 			c.Violation(prop+"|ref-mismatch|"+cls+"|"+progHash(p), "VM outcome differs from the documented semantics ("+why+")",
 				c02wit{Program: p, Opt: opt, Why: why, VM: vm, Ref: r.Outcome})
